@@ -1,19 +1,32 @@
 /- Driver component `poolbin`: the host registry of Model/Pool.lean (`register`, `closeRemote`) against the built
-pool binary with real WebSocket connections ending in every possible way (C09, the glue in server.go). -/
+pool binary with real WebSocket connections ending in every possible way (C09, the glue in server.go), and hosts
+that refuse the whitelist instruction with an RPC error over the real transport (C08). -/
 import Vipnode.Drv.Proto
 import Vipnode.Model.Pool
 namespace Vipnode.Drv
 open Vipnode
 
-def poolBinStep (p : Pool) (args : List String) : Pool × String :=
+structure PoolBinDrv where
+  pool : Pool := {}
+  refusing : List String := []     -- connections whose host currently answers instructions with an RPC error
+
+def poolBinStep (st : PoolBinDrv) (args : List String) : PoolBinDrv × String :=
+  let p := st.pool
   match args with
-  | ["hostconn", c, n] => (p.register n c, "ok")
-  | ["closeconn", c, _] => (p.closeRemote c, "ok")
+  | ["hostconn", c, n] => ({ st with pool := p.register n c }, "ok")
+  | ["closeconn", c, _] => ({ pool := p.closeRemote c, refusing := st.refusing.filter (· != c) }, "ok")
+  | ["hostmode", c, m] =>
+    if (p.hosts.map (·.2)).contains c then
+      ({ st with refusing := if m == "refuse" then c :: st.refusing.filter (· != c) else st.refusing.filter (· != c) }, "ok")
+    else (st, "ok")
   | ["peer"] =>
     -- the client asks for more hosts than exist: every host with a live registration is called on the connection of
-    -- its latest registration and returned; a connection that has ended, however it ended, is never called
-    if p.hosts.isEmpty then (p, "err NoHosts wl=")
-    else (p, "ok hosts=" ++ ",".intercalate (sortStrings (p.hosts.map (·.1))) ++ " wl=" ++ ",".intercalate (sortStrings (p.hosts.map (·.2))))
-  | _ => (p, "bad-op")
+    -- its latest registration; those that acknowledge are returned; a connection that has ended is never called
+    let wl := ",".intercalate (sortStrings (p.hosts.map (·.2)))
+    let acked := p.hosts.filter (fun hc => !st.refusing.contains hc.2)
+    if p.hosts.isEmpty then (st, "err NoHosts wl=")
+    else if acked.isEmpty then (st, "err HostsFailed wl=" ++ wl)
+    else (st, "ok hosts=" ++ ",".intercalate (sortStrings (acked.map (·.1))) ++ " wl=" ++ wl)
+  | _ => (st, "bad-op")
 
 end Vipnode.Drv
